@@ -500,3 +500,176 @@ def equal_null(a, b) -> bool:
     if a is None or b is None:
         return a is None and b is None
     return a == b
+
+
+# ------------------------------------------------------------------------------------------------------------------
+# operator contexts: a function call is atomic — as an operand of an operator (or with a compound argument) it keeps its
+# value.  SQL three-valued logic and the expectations of a call standing in the operand positions of the operators.
+
+
+def sql_not(a):
+    return None if a is None else (not a)
+
+
+def sql_and(a, b):
+    if a is False or b is False:
+        return False
+    if a is None or b is None:
+        return None
+    return True
+
+
+def sql_or(a, b):
+    if a is True or b is True:
+        return True
+    if a is None or b is None:
+        return None
+    return False
+
+
+def sql_cmp(op: str, a, b):
+    """Comparison of two values of one type family; NULL if an operand is NULL."""
+    if a is None or b is None:
+        return None
+    return {"=": a == b, "<>": a != b, "<": a < b, "<=": a <= b, ">": a > b, ">=": a >= b}[op]
+
+
+def sql_in(a, items):
+    """a IN (items): TRUE if a equals an item, else NULL if a or an item is NULL, else FALSE."""
+    if a is None:
+        return None
+    if any(x is not None and x == a for x in items):
+        return True
+    return None if any(x is None for x in items) else False
+
+
+def different(v):
+    """A value of the same type that is greater than v (bool: the other one)."""
+    if isinstance(v, bool):
+        return not v
+    if isinstance(v, (int, Decimal)):
+        return v + 1
+    if isinstance(v, float):
+        return v + 1.0
+    if isinstance(v, str):
+        return v + "x"
+    if isinstance(v, (D, TS)):
+        return v + dt.timedelta(days=1)
+    raise NotDemanded(type(v).__name__)
+
+
+def operator_contexts(v, kind: str):
+    """The operand positions a call can stand in, for a call whose documented value is v (of result kind ``kind``:
+    str | num | float | bool | date | ts).  Returns [(family, template, expected value, expected kind)]: the template holds
+    {F} for the text of the call, {V} for a literal of v and {W} for a literal of different(v).  The expectation is what the
+    operator yields when {F} is replaced by the *value* v (operator semantics of standard SQL: comparison, three-valued
+    AND / OR / NOT, IS NULL, IN, BETWEEN, CASE, + - * and unary minus on numbers, || on strings, DATE + integer = days,
+    and the casts documented under "Data type conversion")."""
+    out = []
+
+    def add(family, tpl, val, k="bool"):
+        out.append((family, tpl, val, k))
+
+    add("is_null", "{F} IS NULL", v is None)
+    add("is_null", "{F} IS NOT NULL", v is not None)
+    add("is_null", "NOT {F} IS NULL", v is not None)
+    add("case", "CASE WHEN 1 = 1 THEN {F} END", v, kind)
+    add("function_argument", "COALESCE(NULL, {F})", v, kind)
+    if v is None:
+        add("cmp_both", "{F} = {F}", None)
+        add("function_argument", "NVL2({F}, 1, 0)", 0, "num")
+        return out
+    w = different(v)
+    ops = ("=", "<>") if kind == "bool" else ("=", "<>", "<", "<=", ">", ">=")
+    for op in ops:
+        add("cmp_left", f"{{F}} {op} {{V}}", sql_cmp(op, v, v))
+        add("cmp_left", f"{{F}} {op} {{W}}", sql_cmp(op, v, w))
+        add("cmp_right", f"{{V}} {op} {{F}}", sql_cmp(op, v, v))
+        add("cmp_right", f"{{W}} {op} {{F}}", sql_cmp(op, w, v))
+    add("cmp_both", "{F} = {F}", True)
+    add("cmp_both", "{F} <> {F}", False)
+    add("in_subject", "{F} IN ({W}, {V})", sql_in(v, [w, v]))
+    add("in_subject", "{F} IN ({W})", sql_in(v, [w]))
+    add("in_subject", "{F} NOT IN ({V})", sql_not(sql_in(v, [v])))
+    add("in_subject", "{F} NOT IN ({W})", sql_not(sql_in(v, [w])))
+    add("in_member", "{V} IN ({F})", sql_in(v, [v]))
+    add("in_member", "{W} IN ({V}, {F})", sql_in(w, [v, v]))
+    add("in_member", "{W} NOT IN ({F})", sql_not(sql_in(w, [v])))
+    if kind != "bool":
+        add("between_subject", "{F} BETWEEN {V} AND {W}", True)
+        add("between_subject", "{F} NOT BETWEEN {V} AND {W}", False)
+        add("between_bound", "{W} BETWEEN {F} AND {W}", True)
+        add("between_bound", "{V} BETWEEN {W} AND {F}", False)
+    add("not_comparison", "NOT {F} = {V}", False)
+    add("not_comparison", "NOT {F} = {W}", True)
+    add("and_or_of_comparisons", "{F} = {V} AND {F} <> {W}", True)
+    add("and_or_of_comparisons", "{F} = {W} OR {F} = {V}", True)
+    add("and_or_of_comparisons", "{F} = {W} OR {F} <> {V}", False)
+    add("case", "CASE WHEN {F} = {V} THEN 1 ELSE 0 END", 1, "num")
+    add("case", "CASE WHEN {F} = {W} THEN 1 ELSE 0 END", 0, "num")
+    add("case", "CASE {F} WHEN {W} THEN 0 WHEN {V} THEN 1 ELSE 2 END", 1, "num")
+    add("function_argument", "COALESCE({F}, {W})", v, kind)
+    add("function_argument", "IFF({F} = {V}, 1, 0)", 1, "num")
+    add("function_argument", "NULLIF({F}, {W})", v, kind)
+    add("function_argument", "NULLIF({F}, {V})", None, kind)
+    add("function_argument", "NVL2({F}, 1, 0)", 1, "num")
+    if kind == "bool":
+        for other in (True, False, None):
+            o = "NULL" if other is None else "TRUE" if other else "FALSE"
+            add("bool_left", f"{{F}} AND {o}", sql_and(v, other))
+            add("bool_left", f"{{F}} OR {o}", sql_or(v, other))
+            add("bool_right", f"{o} AND {{F}}", sql_and(other, v))
+            add("bool_right", f"{o} OR {{F}}", sql_or(other, v))
+        add("bool_not", "NOT {F}", sql_not(v))
+        add("bool_not", "NOT {F} AND TRUE", sql_not(v))
+        add("bool_not", "NOT {F} OR FALSE", sql_not(v))
+        add("bool_both", "{F} AND {F}", v)
+        add("bool_both", "{F} OR {F}", v)
+        add("bool_both", "{F} AND NOT {F}", False)
+        add("case", "CASE WHEN {F} THEN 1 ELSE 0 END", 1 if v else 0, "num")
+        add("function_argument", "IFF({F}, 1, 0)", 1 if v else 0, "num")
+        add("cast", "{F}::BOOLEAN", v, "bool")
+        add("cast", "CAST({F} AS BOOLEAN)", v, "bool")
+        add("cast", "{F}::VARCHAR", "true" if v else "false", "str")
+    elif kind in ("num", "float"):
+        one, two, hundred = (1.0, 2.0, 100.0) if kind == "float" else (1, 2, 100)
+        add("arith_left", "{F} + 1", v + one, kind)
+        add("arith_left", "{F} - 1", v - one, kind)
+        add("arith_left", "{F} * 2", v * two, kind)
+        add("arith_right", "1 + {F}", one + v, kind)
+        add("arith_right", "100 - {F}", hundred - v, kind)
+        add("arith_right", "2 * {F}", two * v, kind)
+        add("arith_right", "100 - {F} - 1", hundred - v - one, kind)
+        add("arith_both", "{F} + {F}", v + v, kind)
+        add("arith_both", "{F} - {F}", v - v, kind)
+        add("unary_minus", "-{F}", -v, kind)
+        add("unary_minus", "- {F} + 1", -v + one, kind)
+        add("unary_minus", "1 - -{F}", one + v, kind)
+        if kind == "num":
+            add("cast", "{F}::NUMBER(38,6)", v, "num")
+            add("cast", "CAST({F} AS NUMBER(38,6))", v, "num")
+            add("cast", "{F}::FLOAT", float(v), "float")
+        else:
+            add("cast", "{F}::FLOAT", v, "float")
+            add("cast", "CAST({F} AS DOUBLE)", v, "float")
+    elif kind == "str":
+        add("concat_left", "{F} || 'x'", v + "x", "str")
+        add("concat_right", "'x' || {F}", "x" + v, "str")
+        add("concat_right", "'x' || {F} || 'y'", "x" + v + "y", "str")
+        add("concat_both", "{F} || {F}", v + v, "str")
+        add("cast", "{F}::VARCHAR", v, "str")
+        add("cast", "CAST({F} AS VARCHAR)", v, "str")
+    elif kind == "date":
+        add("arith_left", "{F} + 1", v + dt.timedelta(days=1), "date")
+        add("arith_left", "{F} - 1", v - dt.timedelta(days=1), "date")
+        add("arith_right", "1 + {F}", v + dt.timedelta(days=1), "date")
+        add("cast", "{F}::DATE", v, "date")
+        add("cast", "{F}::TIMESTAMP_NTZ", TS(v.year, v.month, v.day), "ts")
+        add("cast", "CAST({F} AS TIMESTAMP_NTZ)", TS(v.year, v.month, v.day), "ts")
+    elif kind == "ts":
+        add("cast", "{F}::TIMESTAMP_NTZ", v, "ts")
+        add("cast", "{F}::DATE", v.date(), "date")
+        add("cast", "CAST({F} AS DATE)", v.date(), "date")
+    else:
+        raise NotDemanded(kind)
+    return out
